@@ -364,10 +364,14 @@ impl SanitizerConfig {
 
                 // Check if the attribute is allowed.
                 if whitelist_attrs {
+                    // The lists contain names of HTML attributes. An attribute in a namespace, like
+                    // the `xlink:href` of an element inside `<svg>`, is serialized with its prefix
+                    // so it is not one of them, even if its local name is in a list.
+                    let is_html_attr = attr.name.ns.is_empty();
                     let list_allowed = list_allow_attrs.is_some_and(|set| set.contains(attr_name));
                     let mode_allowed = mode_allow_attrs.is_some_and(|set| set.contains(attr_name));
 
-                    if !list_allowed && !mode_allowed {
+                    if !is_html_attr || (!list_allowed && !mode_allowed) {
                         return Some(AttributeAction::Remove(attr.to_owned()));
                     }
                 }
